@@ -95,6 +95,36 @@ Fixpoint ins_ok (tl : Z) (ins : list minput) : Prop :=
 
 Definition no_passive (ins : list minput) : Prop := Forall (fun i => i <> InApi ApiPassive) ins.
 
+(* a side condition on every station state the run goes through (used to exclude known classes) *)
+Fixpoint run_ok (G : fdl -> Prop) (f : fdl) (apps : list A) (buf : bytes) (ins : list minput) : Prop :=
+  match ins with
+  | [] => True
+  | InApi a :: tl =>
+      match api_result a f with
+      | Ok f' => G f' /\ run_ok G f' apps buf tl
+      | _ => True
+      end
+  | InPoll now busy nb :: tl =>
+      match poll ops f now (mkPhyIn busy (buf ++ nb)) apps with
+      | Ok (f', o, apps', _) => G f' /\ run_ok G f' apps' (rx_left o) tl
+      | _ => True
+      end
+  end.
+
+Definition transcript_ok (G : fdl -> Prop) (apps : list A) (ins : list minput) : Prop :=
+  match fdl_new p with
+  | Ok f0 => G f0 /\ run_ok G f0 apps [] ins
+  | _ => True
+  end.
+
+Lemma run_ok_true f apps buf ins : run_ok (fun _ => True) f apps buf ins.
+Proof.
+  revert f apps buf. induction ins as [|x ins IH]; intros f apps buf; [exact I|].
+  destruct x as [a|now busy nb]; cbn [run_ok].
+  - destruct (api_result a f); [split; [exact I|apply IH]|exact I|exact I].
+  - destruct (poll ops f now _ apps) as [[[[f' o] apps'] calls]| |]; [split; [exact I|apply IH]|exact I|exact I].
+Qed.
+
 End Model.
 
 (* ------------------------------------------------------------------------------------------ *)
@@ -682,16 +712,18 @@ Variable n : nat.
 Variable Q : pid -> Prop.
 (* invariant: station, applications, PHY buffer, time of the last poll, monitor states *)
 Variable J : fdl -> list A -> bytes -> Z -> mon -> mon2 -> Prop.
+(* side condition on the states of the run *)
+Variable G : fdl -> Prop.
 
 Hypothesis HQ5 : Q PC05.
 
 Hypothesis J_api : forall a f apps buf tl m g f',
-  J f apps buf tl m g -> api_result p a f = Ok f' ->
+  J f apps buf tl m g -> api_result p a f = Ok f' -> G f' ->
   J f' apps buf tl (fst (mon_after_api a (view_of f') m g)) (snd (mon_after_api a (view_of f') m g)).
 
 Hypothesis J_poll : forall f apps buf tl m g now busy nb f' o apps' calls,
   J f apps buf tl m g -> tl <= now -> time_ok now -> all_bytes nb ->
-  poll ops f now (mkPhyIn busy (buf ++ nb)) apps = Ok (f', o, apps', calls) ->
+  poll ops f now (mkPhyIn busy (buf ++ nb)) apps = Ok (f', o, apps', calls) -> G f' ->
   onlyp Q (snd (mon_poll p n m (poll_event now busy (buf ++ nb) f' o calls))) /\
   onlyp Q (snd (mon_poll2 p n m g (poll_event now busy (buf ++ nb) f' o calls))) /\
   J f' apps' (rx_left o) now (fst (mon_poll p n m (poll_event now busy (buf ++ nb) f' o calls)))
@@ -705,42 +737,43 @@ Proof.
 Qed.
 
 Theorem generic_sound : forall ins f apps buf tl m g i la,
-  J f apps buf tl m g -> ins_ok tl ins ->
+  J f apps buf tl m g -> ins_ok tl ins -> run_ok A ops p G f apps buf ins ->
   forall k r, In (k, r) (monitor_from p n i (Some (m, g)) la (model_events A ops p f apps buf ins)) -> Q (rule_prop r).
 Proof.
-  induction ins as [|x ins IH]; intros f apps buf tl m g i la HJ Hok k r Hin; [contradiction|].
-  destruct x as [a|now busy nb]; cbn [model_events] in Hin.
+  induction ins as [|x ins IH]; intros f apps buf tl m g i la HJ Hok Hrun k r Hin; [contradiction|].
+  destruct x as [a|now busy nb]; cbn [model_events] in Hin; cbn [run_ok] in Hrun.
   - cbn [ins_ok] in Hok.
     destruct (api_result p a f) as [f'| |] eqn:Ea.
-    + rewrite monitor_from_api in Hin.
+    + rewrite monitor_from_api in Hin. destruct Hrun as (Hg & Hrun).
       destruct (mon_after_api a (view_of f') m g) as [m' g'] eqn:Em.
-      pose proof (J_api _ _ _ _ _ _ _ _ HJ Ea) as HJ'. rewrite Em in HJ'. cbn [fst snd] in HJ'.
-      exact (IH _ _ _ _ _ _ _ _ HJ' Hok _ _ Hin).
+      pose proof (J_api _ _ _ _ _ _ _ _ HJ Ea Hg) as HJ'. rewrite Em in HJ'. cbn [fst snd] in HJ'.
+      exact (IH _ _ _ _ _ _ _ _ HJ' Hok Hrun _ _ Hin).
     + rewrite monitor_from_api in Hin. exact (monitor_from_panic _ _ _ _ _ Hin).
     + rewrite monitor_from_api in Hin. exact (monitor_from_panic _ _ _ _ _ Hin).
   - cbn [ins_ok] in Hok. destruct Hok as (Htl & Hnow & Hnb & Hok).
     destruct (poll ops f now (mkPhyIn busy (buf ++ nb)) apps) as [[[[f' o] apps'] calls]| |] eqn:Ep;
       try exact (monitor_from_panic _ _ _ _ _ Hin).
-    destruct (J_poll _ _ _ _ _ _ _ _ _ _ _ _ _ HJ Htl Hnow Hnb Ep) as (H1 & H2 & HJ').
+    destruct Hrun as (Hg & Hrun).
+    destruct (J_poll _ _ _ _ _ _ _ _ _ _ _ _ _ HJ Htl Hnow Hnb Ep Hg) as (H1 & H2 & HJ').
     cbn [monitor_from mon_event] in Hin.
     destruct (mon_poll p n m (poll_event now busy (buf ++ nb) f' o calls)) as [m' e1].
     destruct (mon_poll2 p n m g (poll_event now busy (buf ++ nb) f' o calls)) as [g' e2].
     cbn [fst snd app] in *. apply in_app_or in Hin. destruct Hin as [Hin|Hin].
     + apply in_map_iff in Hin. destruct Hin as (r' & Hr & Hin). injection Hr as _ <-.
       apply in_app_or in Hin. destruct Hin as [Hin|Hin]; [exact (H1 _ Hin)|exact (H2 _ Hin)].
-    + exact (IH _ _ _ _ _ _ _ _ HJ' Hok _ _ Hin).
+    + exact (IH _ _ _ _ _ _ _ _ HJ' Hok Hrun _ _ Hin).
 Qed.
 
-Hypothesis J_init : forall f0 apps, fdl_new p = Ok f0 -> length apps = n ->
+Hypothesis J_init : forall f0 apps, fdl_new p = Ok f0 -> length apps = n -> G f0 ->
   J f0 apps [] 0 (mon_reset (view_of f0) 0) mon2_reset.
 
-Theorem generic_sound_transcript apps ins : length apps = n -> ins_ok 0 ins ->
+Theorem generic_sound_transcript apps ins : length apps = n -> ins_ok 0 ins -> transcript_ok A ops p G apps ins ->
   forall k r, In (k, r) (monitor p n (model_transcript A ops p apps ins)) -> Q (rule_prop r).
 Proof.
-  intros Hn Hok k r Hin. unfold monitor in Hin. destruct (builder_validb p); [|contradiction].
-  unfold model_transcript in Hin. pose proof J_init as Ji. destruct (fdl_new p) as [f0| |].
-  - cbn [monitor_from mon_event map app] in Hin.
-    exact (generic_sound _ _ _ _ _ _ _ _ _ (Ji _ _ eq_refl Hn) Hok _ _ Hin).
+  intros Hn Hok Hrun k r Hin. unfold monitor in Hin. destruct (builder_validb p); [|contradiction].
+  unfold model_transcript in Hin. unfold transcript_ok in Hrun. pose proof J_init as Ji. destruct (fdl_new p) as [f0| |].
+  - cbn [monitor_from mon_event map app] in Hin. destruct Hrun as (Hg0 & Hrun).
+    exact (generic_sound _ _ _ _ _ _ _ _ _ (Ji _ _ eq_refl Hn Hg0) Hok Hrun _ _ Hin).
   - cbn in Hin. contradiction.
   - cbn in Hin. contradiction.
 Qed.
